@@ -150,7 +150,7 @@ def _child(argv):
             json.dump({'findings': seen, 'stats': stats}, f)
 
 
-def run(ctx, runs=150000, max_time=200):
+def run(ctx, runs=120000, max_time=150):
     """Run one campaign in a child process (shards 0-3 only)."""
     if ctx.shard > 3:
         return
